@@ -193,6 +193,16 @@ func runC19(c *Ctx) *Replay {
 		sc.Files["out.go"] = oldOutput
 		sc.Args = append([]string{"-i", "in.bop", "-o", "out.go", "-package", "simpkg"}, goodFlags[r.Intn(len(goodFlags))]...)
 		sc.Extra["targets"] = "out.go"
+		switch r.Intn(8) {
+		case 0: // the output directory does not exist
+			sc.Args[3] = "nodir/out.go"
+		case 1: // the output is the input: a failed run must still leave the schema alone
+			sc.Args[3] = "in.bop"
+			delete(sc.Files, "out.go")
+			sc.Extra["targets"] = "in.bop"
+		case 2: // no pre-existing output at all
+			delete(sc.Files, "out.go")
+		}
 	} else {
 		sc.Extra["tool"] = "bebopfmt"
 		switch r.Intn(3) {
@@ -211,6 +221,11 @@ func runC19(c *Ctx) *Replay {
 			sc.Files["b.bop"] = "message Other { 1 -> string s; }\n"
 			sc.Args = []string{"-w", "a.bop", "b.bop"}
 			sc.Extra["targets"] = "a.bop,b.bop"
+		}
+		if r.Chance(1, 5) {
+			// stdout mode: nothing may be rewritten at all
+			sc.Args = sc.Args[1:]
+			sc.Extra["stdout_mode"] = "1"
 		}
 		if class == "import" || class == "import-missing" {
 			// bebopfmt does not resolve imports; keep the import file next to it anyway
@@ -450,8 +465,17 @@ func execCLI(n *Node, sc *Scenario) *Violation {
 			}
 		}
 	}
+	// without -w bebopfmt must not touch any file, whatever happens
+	if sc.Extra["stdout_mode"] == "1" {
+		for name, before := range sc.Files {
+			if after, ok := run.After[name]; !ok || !bytes.Equal(after, []byte(before)) {
+				return &Violation{Class: "file-damaged", Signature: "file-damaged|bebopfmt|stdout-mode|" + faultKind,
+					Detail: fmt.Sprintf("bebopfmt without -w changed %s", name), Facts: facts}
+			}
+		}
+	}
 	// (2) exit status and reported errors agree
-	if !run.Signaled {
+	if !run.Signaled && sc.Extra["stdout_mode"] != "1" {
 		out := strings.TrimSpace(run.Stdout)
 		var errLines []string
 		for _, ln := range strings.Split(run.Stderr, "\n") {
@@ -468,6 +492,14 @@ func execCLI(n *Node, sc *Scenario) *Violation {
 				Detail: fmt.Sprintf("%s exited %d without reporting an error", tool, run.Exit), Facts: facts}
 		}
 	}
+	if !run.Signaled && sc.Extra["stdout_mode"] == "1" {
+		if run.Exit != 0 && strings.TrimSpace(run.Stdout+run.Stderr) == "" {
+			return &Violation{Class: "exit-status", Signature: "exit-status|bebopfmt|nonzero-silent|stdout-mode", Detail: "bebopfmt exited non-zero without reporting an error", Facts: facts}
+		}
+		if run.Exit == 0 && bl.Exit != 0 && len(sc.Ops) == 0 {
+			return &Violation{Class: "exit-status", Signature: "exit-status|bebopfmt|zero-on-invalid|stdout-mode", Detail: "bebopfmt exited 0 on input it cannot process", Facts: facts}
+		}
+	}
 	// (3) success means the work was done correctly
 	if run.Exit == 0 && !run.Signaled {
 		if tool == "bebopc-go" && bl.Exit == 0 {
@@ -478,7 +510,7 @@ func execCLI(n *Node, sc *Scenario) *Violation {
 				}
 			}
 		}
-		if tool == "bebopc-go" && bytes.Equal(run.After["out.go"], []byte(oldOutput)) {
+		if tool == "bebopc-go" && sc.Files["out.go"] != "" && targets["out.go"] && bytes.Equal(run.After["out.go"], []byte(oldOutput)) {
 			return &Violation{Class: "exit-status", Signature: fmt.Sprintf("no-output|%s|%s|%s", tool, faultKind, role),
 				Detail: "bebopc-go exited 0 but did not write the output file", Facts: facts}
 		}
